@@ -125,6 +125,7 @@ structure M where
   handshake : Bool := false
   cbLoggedOn : Bool := false
   afterLogoutCb : Bool := false
+  sentResetOnConn : Bool := false    -- C07: we wrote a Logon carrying 141=Y on the current connection
   -- C04 / C20
   fromLogonGap : Bool := false
   hb : Int := 0
@@ -385,6 +386,14 @@ def c07 (ms : M) (e : Event) : List String :=
          | none => ["C07.reset_logon_reply_wrong"])
       else []
     | none => []
+  -- a received reset Logon that is not the echo of ours resets both counters
+  let badHonour := match inb with
+    | some m =>
+      if kindOf m == "A" && fget m.f 141 == some "Y" && accepted && (viewOf cfg m).clean && !ms.sentResetOnConn
+         && !(wires e.items).any (fun w => w.1 == "A" && fget w.2.2 141 == some "Y" && cfg.initiator) then
+        (if resets.isEmpty then ["C07.reset_logon_not_honoured"] else [])
+      else []
+    | none => []
   -- SequenceReset can only move forward
   let badBack := e.items.flatMap fun i => match i with
     | .store ["setT", _] => []
@@ -408,7 +417,7 @@ def c07 (ms : M) (e : Event) : List String :=
       | .store ("save" :: _) => s + 1
       | .store ["incS"] => s + 1
       | _ => s) ms.S) != e.after.S then ["C07.untracked_sender_change"] else []
-  badReset ++ bad40 ++ badEcho ++ badBack ++ badSeqReset ++ badS
+  badReset ++ bad40 ++ badEcho ++ badHonour ++ badBack ++ badSeqReset ++ badS
 
 /-! ## C08: the shape of a connection -/
 
@@ -598,6 +607,9 @@ def monitorStep (ms : M) (e : Event) : M × List String :=
       prev := e.after, T := t', S := e.after.S, last := last', expectInc := false, g1 := g1',
       connOpen := s08.connOpen, wiresOnConn := s08.wiresOnConn, sentLogout := s08.sentLogout, handshake := s08.handshake,
       cbLoggedOn := s08.cbLoggedOn, afterLogoutCb := s08.afterLogoutCb,
+      sentResetOnConn :=
+        (match e.op with | .connect => (if e.after.status == "ok" then false else ms.sentResetOnConn) | _ => ms.sentResetOnConn)
+        || (wires e.items).any (fun w => w.1 == "A" && fget w.2.2 141 == some "Y"),
       fromLogonGap := if ms.prev.st == "Logon" && inRecovery e.after.st then true
                       else if !inRecovery e.after.st then false else ms.fromLogonGap,
       hb := hb', inbox := inbox', stored := storedAfter ms e }
